@@ -290,7 +290,7 @@ def check_williamson_bm(rng):
             zz = np.diag(Z)
             if rec > 1e-6 or st > 1e-6 or zs > 1e-9 or abs(zz[:n] * zz[n:] - 1).max() > 1e-6:
                 unsq = int(np.sum(np.abs(r) < 1e-12))
-                fid = "F34" if (st > 1e-6 and rec <= 1e-6 and unsq >= 2 and unsq < n) else "-"
+                fid = "-"
                 bad(f"bloch_messiah on {lab} (n={n}, {unsq} unsqueezed modes): reconstruction {rec:.2g}, orthogonal-symplectic structure error {st:.2g}, diagonal error {zs:.2g}", fid)
     for badS in (np.eye(3), np.array([[1, 0.3], [0, 1.2]])):
         EVAL[0] += 1
